@@ -266,6 +266,10 @@ func runCheck(repo, prop, tier string) int {
 		}
 		if len(retry) > 0 {
 			r2 := NewRunner(timeout*3, false)
+			if os.Getenv("VERIF_KEEP") != "" {
+				r2.keep = true
+				fmt.Println("DEBUG retry queries in", r2.workdir)
+			}
 			var sub []vcObl
 			for _, i := range retry {
 				sub = append(sub, items[i])
@@ -275,6 +279,11 @@ func runCheck(repo, prop, tier string) int {
 				results[i] = rs[k]
 			}
 			r2.Close()
+		}
+	}
+	if os.Getenv("VERIF_DEBUG") != "" {
+		for _, x := range results {
+			fmt.Printf("DEBUG %-10s %-70s %s %.2fs\n", x.Status, x.Obl.Name, x.Solver, x.Time)
 		}
 	}
 	known := loadKnown()
